@@ -80,6 +80,15 @@ def cases(ctx):
                             if mapping is None:
                                 c["rom"] = "low"       # the command line's default mapping
                         out.append(c)
+    # -D values given as expressions, a later one using an earlier one, and malformed ones (the command line must fail)
+    for texts, vals, ok in (({"A1": "0x10", "B2": "A1 + 2", "C3": "(A1 | B2) << 1"}, {"A1": 0x10, "B2": 0x12, "C3": 0x24}, True),
+                            ({"A1": "~0xF0 & 0xFF", "B2": "-1 + 3"}, {"A1": 0x0F, "B2": 2}, True),
+                            ({"A1": "1 ?"}, {}, False), ({"A1": "UNDEF + 1"}, {}, False), ({"A1": "(1"}, {}, False)):
+        names = list(texts)
+        src = "*=0x008000\n" + "".join(f".dw {n}\n" for n in names) + (f".if {names[0]} {{\n.db 1\n}}\n" if ok else "")
+        out.append({"kind": "cli-define-expressions", "rom": "low", "mapping": "low", "format": "ips", "copier": False,
+                    "defines": dict(vals), "cli_defines": dict(texts), "api": ok, "cli": True, "src": src,
+                    "spec": {"t": "c12" if ok else "none"}})
     # -D with an expression value on the command line
     out.append({"kind": "cli-define-expression", "rom": "low", "mapping": "low", "format": "ips", "copier": False,
                 "defines": {"FOO": 0x12}, "cli_defines": {"FOO": "0x10+2"}, "api": True, "cli": True,
